@@ -31,9 +31,9 @@ def resolve(e, env, depth=10):
     class Sub(ast.NodeTransformer):
         def visit_Name(self, n):
             if isinstance(n.ctx, ast.Load) and n.id in env and depth > 0:
-                return copy.deepcopy(env[n.id])
+                return N.clone(env[n.id])
             return n
-    return deref(Sub().visit(copy.deepcopy(e)))
+    return deref(Sub().visit(N.clone(e)))
 
 
 def deref(e):
@@ -112,8 +112,13 @@ def _desugar(stmts):
             changed = True
         elif isinstance(s, ast.Assign) and isinstance(s.value, ast.IfExp):
             e = s.value
-            n = ast.If(test=e.test, body=_desugar([ast.copy_location(ast.Assign(targets=s.targets, value=e.body), s)])[0],
-                       orelse=_desugar([ast.copy_location(ast.Assign(targets=s.targets, value=e.orelse), s)])[0])
+
+            def arm(v):
+                # `x = x` (the arm of `x = c if t else x` that keeps the value) is no statement at all
+                if len(s.targets) == 1 and isinstance(s.targets[0], ast.Name) and isinstance(v, ast.Name) and v.id == s.targets[0].id:
+                    return [ast.copy_location(ast.Pass(), s)]
+                return _desugar([ast.copy_location(ast.Assign(targets=s.targets, value=v), s)])[0]
+            n = ast.If(test=e.test, body=arm(e.body), orelse=arm(e.orelse))
             out.append(ast.copy_location(n, s))
             changed = True
         elif isinstance(s, (ast.If, ast.For, ast.While, ast.With, ast.Try)):
@@ -250,7 +255,7 @@ def enumerate_paths(stmts, cap=5000):
             for t_ in (s.targets if isinstance(s, ast.Assign) else [s.target] if isinstance(s, (ast.AugAssign, ast.AnnAssign)) else []):
                 for x in ([t_] if not isinstance(t_, (ast.Tuple, ast.List)) else t_.elts):
                     if isinstance(x, (ast.Subscript, ast.Attribute)):
-                        xl = copy.deepcopy(x)
+                        xl = N.clone(x)
                         xl.ctx = ast.Load()
                         mem.append(ast.unparse(resolve(xl, env)).replace(' ', ''))
             if mem:
@@ -354,7 +359,7 @@ def stores_on(path):
                 tt = t
                 if isinstance(t, ast.Subscript):
                     # the stored-to location with aliases of its base / index substituted (p[0] with p = &X[k] is X[k])
-                    tl = copy.deepcopy(t)
+                    tl = N.clone(t)
                     tl.ctx = ast.Load()
                     tt = resolve(tl, e.env)
                 out.append((i, ast.unparse(tt).replace(' ', ''), resolve(e.node.value, e.env)))
